@@ -1018,7 +1018,14 @@ class ResultHandler(PoolThread):
                 if not time_terminate:
                     time_terminate = now
                 else:
-                    if now - time_terminate > 5.0:
+                    # jobs whose worker was lost are failed only after
+                    # their grace period: stay until that has happened,
+                    # nobody else is left to do it.
+                    patience = max([5.0] + [
+                        job._lost_worker_timeout + 1.0
+                        for job in list(cache.values())
+                        if not job.ready() and job._worker_lost])
+                    if now - time_terminate > patience:
                         debug('result handler exiting: timed out')
                         break
                     debug('result handler: all workers terminated, '
